@@ -11,11 +11,13 @@ Stage in place (see DESIGN.md §10 staging):
   loops; whenever the structure is well formed and heap ordered the popped node is maximal for
   `MaxUB` among everything in the fringe (`pop_is_max`), hence pops are in non-increasing upper bound
   order with ties by larger value (`pop_max_ub_value`), and `len` is the number of poppable items.
-* the well-formedness / heap-order invariants themselves (`NoDup.wfB`, `NoDup.heapOrdB`) are *checked*
-  by the driver on every state of every explored trace and are not yet proved inductive; neither is the
-  refinement `NoDup ⊑ KeyedPQ` — both are stated below as `Prop`s (`NoDupInvariantInductive`,
-  `NoDupRefinesKeyed`), and watched through `phi`, which replays the implementation's outputs against
-  the keyed-multiset specification.
+* the well-formedness / heap-order invariants (`NoDup.wfB`, `NoDup.heapOrdB`, also evaluated by the
+  driver on every state of every explored trace) are proved inductive, and the refinement
+  `NoDup ⊑ KeyedPQ` is proved, in `Props/C11Inv.lean` (`inv_push`, `inv_pop`, `reachable_inv`,
+  `push_refines_perm`, `pop_refines`, `pop_is_max_live`, …).  The two `Prop`s stated at the end of this
+  file are settled there: `NoDupRefinesKeyed_holds`, and `NoDupInvariantInductive_total` — the
+  statement below as first written has a vacuous ranking hypothesis and is *false*
+  (`NoDupInvariantInductive_literal_false`); it is kept as written, as a reminder.
 * `SimpleFringe` is `binary_heap_plus::BinaryHeap` (modelled, not verified): `KeyedPQ.popOk`. -/
 namespace Ddo.C11
 
@@ -233,7 +235,7 @@ theorem heapOrdB_sound (rank : Int → Int → Ordering) (f : NoDup) (h : f.heap
   simp only [hj, Bool.false_or, ha, hb] at this
   simpa [subLe] using this
 
-/-! ## stated, not yet proved (stage 2) -/
+/-! ## stated here, settled in `Props/C11Inv.lean` -/
 
 /-- the checked invariants are inductive: preserved by every operation that returns -/
 def NoDupInvariantInductive : Prop :=
